@@ -481,20 +481,20 @@ Qed.
 (* ---- layer (c''): request objects ---- *)
 Lemma ro_handler_total r : ro_handler true r = HRefused \/ ro_handler true r = HAccepted.
 Proof.
-  destruct r as [e po su pa c1 c2 c3 c4 sg]. unfold ro_handler, ro_checks. cbn.
-  destruct su, pa, c1, c2, c3, c4, sg; cbn; auto.
+  destruct r as [e po em su pa c1 c2 c3 c4 sg]. unfold ro_handler, ro_checks. cbn.
+  destruct em, su, pa, c1, c2, c3, c4, sg; cbn; auto.
 Qed.
 
 Lemma ro_accept_iff r :
   ro_handler true r = HAccepted <->
-  ro_supported r && ro_parses r && ro_cid_ok r && ro_rt_ok r && ro_iss_ok r && ro_aud_ok r && ro_sig_ok r = true.
+  ro_empty r || (ro_supported r && ro_parses r && ro_cid_ok r && ro_rt_ok r && ro_iss_ok r && ro_aud_ok r && ro_sig_ok r) = true.
 Proof.
-  destruct r as [e po su pa c1 c2 c3 c4 sg]. unfold ro_handler, ro_checks. cbn.
-  destruct su, pa, c1, c2, c3, c4, sg; cbn; split; intro H; try reflexivity; discriminate.
+  destruct r as [e po em su pa c1 c2 c3 c4 sg]. unfold ro_handler, ro_checks. cbn.
+  destruct em, su, pa, c1, c2, c3, c4, sg; cbn; split; intro H; try reflexivity; discriminate.
 Qed.
 
 Lemma ro_typed_nil_panics :
-  ro_handler false {| ro_entry := ViaProvider; ro_post := false; ro_supported := true; ro_parses := true; ro_cid_ok := true;
+  ro_handler false {| ro_entry := ViaProvider; ro_post := false; ro_empty := false; ro_supported := true; ro_parses := true; ro_cid_ok := true;
                       ro_rt_ok := true; ro_iss_ok := true; ro_aud_ok := true; ro_sig_ok := false |} = HPanic.
 Proof. reflexivity. Qed.
 
